@@ -1249,7 +1249,49 @@ func checkExplicitPanics(c *core.Ctx, l *core.Ledger) {
 			}
 			// (iv) named exception
 			if c.Named(f, "goCase") && core.PkgRel(f) == "gen" {
-				l.Add(core.Obligation{Rule: "PANICS", Key: key, Pos: pos, Status: core.Discharged, Detail: "named exception: goCase panics on an empty string; identifiers produced by the scanner are never empty (assumption about the generated scanner)"})
+				// identifiers produced by the scanner are never empty (assumption); a string taken from an annotation
+				// map is user text and may be: every call that passes one must sit under a non-empty test of it
+				var bad []string
+				for _, site := range c.StaticCallSites(f) {
+					if c.IsTestFile(site.Pos()) || len(site.Common().Args) != 1 {
+						continue
+					}
+					a := site.Common().Args[0]
+					fromAnn := false
+					switch x := a.(type) {
+					case *ssa.Lookup:
+						_, fromAnn = x.X.Type().Underlying().(*types.Map)
+					case *ssa.Extract:
+						if lk, isLk := x.Tuple.(*ssa.Lookup); isLk {
+							_, fromAnn = lk.X.Type().Underlying().(*types.Map)
+						}
+					}
+					if !fromAnn {
+						continue
+					}
+					host := site.Parent()
+					nonEmpty := core.GuardEdges(host, func(cm core.Cmp) bool {
+						if cm.X == a && cm.Op == token.NEQ {
+							k, isK := cm.Y.(*ssa.Const)
+							return isK && k.Value != nil && k.Value.ExactString() == `""`
+						}
+						if call, isCall := cm.X.(*ssa.Call); isCall {
+							if bi, isB := call.Call.Value.(*ssa.Builtin); isB && bi.Name() == "len" && call.Call.Args[0] == a {
+								n, isN := core.ConstInt(cm.Y)
+								return isN && ((n == 0 && (cm.Op == token.GTR || cm.Op == token.NEQ)) || (n == 1 && cm.Op == token.GEQ))
+							}
+						}
+						return false
+					})
+					if len(nonEmpty) == 0 || !core.AllPathsThroughEdges(host, site.Block(), nonEmpty) {
+						bad = append(bad, core.SSAName(host)+" passes an annotation value ("+core.Sym(a)+") at "+c.Rel(site.Pos())+" without a non-empty test")
+					}
+				}
+				if len(bad) > 0 {
+					l.Bad("PANICS", key, pos, "goCase panics on an empty string and "+strings.Join(bad, "; ")+": an empty annotation value crashes the generator")
+					return
+				}
+				l.Add(core.Obligation{Rule: "PANICS", Key: key, Pos: pos, Status: core.Discharged, Detail: "named exception: goCase panics on an empty string; identifiers produced by the scanner are never empty (assumption about the generated scanner) and every annotation value passed to it is tested non-empty first"})
 				return
 			}
 			l.Bad("PANICS", key, pos, "explicit panic reachable from compile.Compile/gen.Generate that falls in none of the verified classes", core.PathTo(reach, f)...)
